@@ -102,6 +102,12 @@ theorem constructors_roundtrip :
    fun thumb dc id ah ref h0 h1 h2 h3 h4 => fileid_roundtrip _ (fromPhoto_canon thumb dc id ah ref h0 h1 h2 h3 h4),
    fun big peer ah dc pid h0 h1 h2 h3 => fileid_roundtrip _ (fromChatPhoto_canon big peer ah dc pid h0 h1 h2 h3)⟩
 
+/-- The hand-transliterated glue — `EncodeFileID` (encode, append version 4, RLE, base64url),
+`DecodeFileID` (length check, version switch, slice), the base64 variant, and the flag arithmetic on
+the type word in `encodeLatestFileID` / `decodeLatestFileID` — still has the source text the model
+was written from.  Fails closed (names the changed piece). -/
+theorem glue_source_unchanged : Facts.C38.changedGlue = [] := by decide
+
 /-- The wire programs regenerated from the source on this run, spelled out: field order and
 widths of `encodeLatestFileID` / `decodeLatestFileID` (`(cond, kind, field)`, see Model/C38.lean)
 and the rows of the two `switch`es over the photo size source type.  The model INTERPRETS the
